@@ -2,6 +2,7 @@ package main
 
 import (
 	"fmt"
+	"go/parser"
 	"go/types"
 	"os"
 	"regexp"
@@ -246,6 +247,18 @@ func (f *frame) numLibCall(at ssa.Instruction, fn *ssa.Function, args []T, c *ss
 	}
 	f.bumpW(st)
 	rs := f.freshResults(sig, st)
+	// abstract content of produced byte strings: a function of the number object (identity based)
+	e.declFun("bytesval", []string{"(Array Int Int)", "Int", "Int"}, "Int")
+	if n := fn.Name(); (n == "Bytes" || n == "MarshalBinary") && len(rs) >= 1 && rs[0].Sort == "Slice" && len(args) > 0 {
+		e.declFun("nbytes", []string{"Int"}, "Int")
+		h, hs := f.elemHeap(types.Typ[types.Uint8])
+		e.assume(implies(st.cond, "(= (bytesval (select "+e.H(st, h, hs)+" (sarr "+rs[0].S+")) (soff "+rs[0].S+") (slen "+rs[0].S+")) (nbytes "+args[0].S+"))"))
+	}
+	if fn.Name() == "FillBytes" && len(args) == 2 && args[1].Sort == "Slice" {
+		e.declFun("nfill", []string{"Int", "Int"}, "Int")
+		h, hs := f.elemHeap(types.Typ[types.Uint8])
+		e.assume(implies(st.cond, "(= (bytesval (select "+e.H(st, h, hs)+" (sarr "+args[1].S+")) (soff "+args[1].S+") (slen "+args[1].S+")) (nfill "+args[0].S+" (slen "+args[1].S+")))"))
+	}
 	if n := fn.Name(); n == "BitLen" || n == "TrueLen" || n == "AnnouncedLen" {
 		if len(rs) == 1 && rs[0].Sort == "Int" {
 			e.assume(implies(st.cond, "(>= "+rs[0].S+" 0)"))
@@ -339,12 +352,14 @@ func (f *frame) lock(at ssa.Instruction, m T, c *ssa.CallCommon, st *State) {
 	a, pos := f.anchor(at)
 	excl := "(select " + e.H(st, "EXCL", "(Array Int Bool)") + " " + m.S + ")"
 	e.addOb("lock-reentry", a, f.lockTags(c), pos, st.cond, not(excl))
-	// other threads may have changed everything reachable from shared state
-	e.havocChans = true
-	e.havocClass(st, 0)
-	e.havocChans = false
-	e.havocClass(st, 1)
-	f.bumpW(st)
+	if f.root.ct == nil || !f.root.ct.Sequential {
+		// other threads may have changed everything reachable from shared state
+		e.havocChans = true
+		e.havocClass(st, 0)
+		e.havocChans = false
+		e.havocClass(st, 1)
+		f.bumpW(st)
+	}
 	ex := e.H(st, "EXCL", "(Array Int Bool)")
 	e.setHeap(st, "EXCL", "(Array Int Bool)", "(store "+ex+" "+m.S+" true)")
 	// parameters and earlier values remain allocated
@@ -628,6 +643,14 @@ func (f *frame) applyContract(at ssa.Instruction, ct *Contract, args []T, st *St
 		}
 	}
 	short := ct.Rel
+	if ct.PanicsIff != nil {
+		// the callee panics exactly under this condition: a caller that must not panic has to exclude it
+		if t, err := env.evalBool(ct.PanicsIff); err == nil {
+			f.safety(at, "callee-panics", st, not(t))
+		} else {
+			e.note("panics_iff eval at call: " + err.Error())
+		}
+	}
 	if ct.MayPanic && !hasRecoverDefer(f.fn) && f.panicProneTarget(at) {
 		f.safety(at, "callee-may-panic", st, "false")
 	}
@@ -770,9 +793,14 @@ func (e *Enc) modAllows(ct *Contract, name string) bool {
 			return true
 		case strings.HasPrefix(m, "heap:") && name == strings.TrimPrefix(m, "heap:"):
 			return true
+		case strings.HasPrefix(name, "GV_") && strings.HasPrefix(m, strings.TrimPrefix(name, "GV_")+"("):
+			return true // per-object ghost update (coarse for the frame check)
 		}
 		if i := strings.Index(m, "."); i > 0 && ct.Pkg != nil && !strings.HasPrefix(m, "heap:") {
 			tn, fld := m[:i], m[i+1:]
+			if j := strings.Index(fld, "@"); j > 0 {
+				continue // per-object clause: handled by frameObligations
+			}
 			var obj types.Object
 			if j := strings.LastIndex(tn, "/"); j >= 0 {
 				if p := e.db.findPkg(tn[:j]); p != nil {
@@ -819,6 +847,10 @@ func (f *frame) havocPattern(st *State, pat string, ct *Contract, env *specEnv) 
 	}
 	if i := strings.Index(pat, "."); i > 0 && ct.Pkg != nil {
 		tn, fld := pat[:i], pat[i+1:]
+		at := ""
+		if j := strings.Index(fld, "@"); j > 0 {
+			fld, at = fld[:j], fld[j+1:]
+		}
 		var obj types.Object
 		if j := strings.LastIndex(tn, "/"); j >= 0 {
 			// qualified by package path relative to module
@@ -843,12 +875,49 @@ func (f *frame) havocPattern(st *State, pat string, ct *Contract, env *specEnv) 
 			}
 			return
 		}
+		if at != "" {
+			// only the field of the object held by parameter `at`
+			v, ok := env.vars[at]
+			hn := "H_" + key + "_" + fld
+			if srt, known := e.heapSort[hn]; ok && known {
+				fr := e.fresh("fld", strings.TrimSuffix(strings.TrimPrefix(srt, "(Array Int "), ")"))
+				e.setHeap(st, hn, srt, "(store "+e.H(st, hn, srt)+" "+v.S+" "+fr+")")
+				return
+			}
+		}
 		e.havoc(st, "H_"+key+"_"+fld)
 		return
 	}
 	if strings.HasPrefix(pat, "heap:") {
 		e.havoc(st, strings.TrimPrefix(pat, "heap:"))
 		return
+	}
+	for _, g := range []string{"ptval", "scval", "natval", "ctval", "wlog", "hstate"} {
+		if strings.HasPrefix(pat, g+"(") && strings.HasSuffix(pat, ")") {
+			// ghost value of one object changes
+			pn := pat[len(g)+1 : len(pat)-1]
+			v, ok := env.vars[pn]
+			if !ok {
+				// an expression over the parameters, evaluated in the pre-state
+				if ex, err := parser.ParseExpr(pn); err == nil {
+					if t, err := env.eval(ex); err == nil {
+						v, ok = t, true
+					}
+				}
+			}
+			if !ok {
+				e.note("modifies: cannot evaluate " + pn)
+				return
+			}
+			ref := v.S
+			if v.Sort == "Iface" {
+				ref = "(ival " + v.S + ")"
+			}
+			h := "GV_" + g
+			fr := e.fresh("gv", "Int")
+			e.setHeap(st, h, "(Array Int Int)", "(store "+e.H(st, h, "(Array Int Int)")+" "+ref+" "+fr+")")
+			return
+		}
 	}
 	if strings.HasPrefix(pat, "elems(") && strings.HasSuffix(pat, ")") {
 		// contents of the backing array of a slice parameter
@@ -984,6 +1053,10 @@ func (f *frame) builtin(at ssa.Instruction, b *ssa.Builtin, c *ssa.CallCommon, a
 		e.setHeap(st, d, ds, "(store "+dh+" "+m.S+" (store (select "+dh+" "+m.S+") "+args[1].S+" false))")
 		return nil
 	case "panic":
+		if f.panicsIff(at, st) {
+			st.cond = "false"
+			return nil
+		}
 		if f.ct != nil && f.ct.PanicAssumed {
 			f.e.assumed["documented panic of "+f.ct.Rel+" assumed unreachable under its requires (trusted numeric link)"] = true
 			st.cond = "false"
